@@ -341,11 +341,14 @@ class Session:
                 return await body()
             finally:
                 self.app.shutdown()
+        watchdog = self.loop.call_later(120.0, self.app.shutdown)     # virtual seconds: a stuck connection ends instead of hanging
         try:
             await self.app.main_loop(after())
             return None
         except Exception as e:
             return e
+        finally:
+            watchdog.cancel()
 
     async def call(self, op, prefix, with_handler=True):
         try:
@@ -493,7 +496,8 @@ def run_concurrent(case):
         bad = [(a, b) for a, b in zip(stamps, stamps[1:]) if not b > a]
         if bad:
             site = 'nfd-registerer' if fe == 'v2' else 'legacy-app'
-            v.append((f'C17:timestamp-not-strictly-increasing:{site}',
+            how = 'same-clock-reading' if clock == 'virtual' else 'clock-ticks-mid-command'
+            v.append((f'C17:timestamp-not-strictly-increasing:{site}:{how}',
                       f'command timestamps in emission order {[t - int(BASE_S * 1000) for t in stamps]} (ms, relative) are not strictly increasing '
                       f'(clock script {clock}, {len(ops)} concurrent calls)'))
         if s.face.overlaps:
